@@ -1,5 +1,19 @@
+//! Solver-backed drivers: C02, C03, C04, C10, C15. `drv-mc worker` is the worker subprocess.
+mod c02;
+mod c03;
+mod common;
+mod pool;
+mod wit;
+mod worker;
+
 use pvcore::run::*;
 
 fn main() {
-    main_with(&[])
+    if std::env::args().nth(1).as_deref() == Some("worker") {
+        worker::main();
+        return;
+    }
+    main_with(&[
+        Entry { id: "C03", level: "model_checking", meta: c03::meta, run: c03::run, replay: c03::replay },
+        Entry { id: "C02", level: "model_checking", meta: c02::meta, run: c02::run, replay: c02::replay }])
 }
